@@ -44,7 +44,7 @@ def build(V, cfg):
         wn.get_node('T').vol_curve_name = 'VC'
     t = wn.options.time
     t.hydraulic_timestep = cfg['H']
-    t.rule_timestep = cfg['H']
+    t.rule_timestep = cfg.get('R', cfg['H'])
     t.report_timestep = cfg.get('report', 'ALL')
     t.duration = cfg['dur']
     tank = wn.get_node('T')
